@@ -663,6 +663,14 @@ def execute(case):
             if out[0] != "ok" or not (out[2] and out[3]):
                 failure = ("walker", "op %d: walking the same tree twice gives different streams or raises: %s" % (i, brief(out[:1] + out[2:])))
                 break
+            if pristine_all or after_cold:
+                from .zygote import ZYGOTE
+                pr = ZYGOTE.request("walk|" + json.dumps(op, sort_keys=True), {"kind": "walk", "op": op})
+                P["pristine_reference_used"] += 1
+                if pr != out:
+                    failure = ("pristine", "op %d (walk): this process gives a token stream different from a pristine interpreter: %s"
+                               % (i, first_diff(pr[1] if pr[0] == "ok" else pr, out[1])))
+                    break
             continue
         oi = op["obj"]
         cfg = case["objs"][oi]
